@@ -1,13 +1,27 @@
 (** C09 — "--" ends option parsing; what follows is positional, verbatim.
-    PARTIAL. Proved at the level of the state machine: the leading "--" is dropped exactly once
-    ([strip] is idempotent and never fires once options are ended, so further "--" are data); a
-    terminal state accepts as soon as nothing is left AFTER the drop (the D1 repair: a trailing "--"
-    is accepted wherever the empty remainder is); after the drop — or after a spec-level "--", whose
-    matcher only raises the same flag — every token is bound verbatim by the positional matcher and
-    no option matcher consumes anything. NOT yet proved: the insertion invariance for an arbitrary
-    prefix of the command line (needs the matcher-level bridge of DESIGN 5/T4) — covered on every run
-    by comparing every insertion point on the implementation itself. *)
-From MowCli Require Import Base Nfa Matchers Apply ApplyProofs TermProofs.
+    PROVED on the model, for command lines that read cleanly (decidable, PC10.v) and every command
+    whose spec has no "--" atom and none of whose options is backed by the environment (the
+    quantifier of the property):
+    [C09_inserted_dd_same_parse] / [C09_insertion_changes_nothing]: inserting the first "--" of the
+    command line at any point of the trailing block of positional arguments, its start and its very
+    end included, changes neither the verdict nor the value of any variable (the depth-first searches
+    proceed in lockstep under the relation [InsertProofs.RI]; after the inserted "--" is dropped the two
+    remainders are the same positionals, one with options still open and one with options ended, and
+    every matcher treats them alike — the option group only because none of its members is backed by
+    the environment: quirk Q2 of DESIGN 1, met again by this proof; with E set, spec "-ef X" accepts
+    "x" and rejects "-- x", which is outside the property's quantifier). [C09_positionals_verbatim] (PC02.v): what follows the first "--" is bound
+    as positional, verbatim, each token once and in order; it is bound to nothing itself
+    ([C02_after_cmdline_dd_verbatim]: it contributes no occurrence and no positional).
+    State-machine level, every automaton: the leading "--" is dropped exactly once ([C09_dropped_once],
+    [C09_further_dd_is_data]); a terminal state accepts as soon as nothing is left AFTER the drop (D1:
+    [C09_trailing_dd_accepted]); after the drop — or after a spec-level "--", whose matcher only raises
+    the same flag ([C09_spec_dd]) — every token is taken verbatim by the positional matcher and no
+    option matcher consumes anything ([C09_verbatim], [C09_no_option_after_dd]).
+    NOT proved: that a "--" written in the spec acts as one present at that position of the command
+    line, beyond these two matcher facts (the statement needs the position of the atom in a run);
+    covered by the check on five spec pairs with/without "--" x random heads x arbitrary tails, and by
+    the reference semantics on every claimed case. *)
+From MowCli Require Import Base Nfa Matchers Apply Values Flow Cmd View ApplyProofs TermProofs ViewProofs ReadProofs InsertProofs.
 
 Theorem C09_dropped_once :
   forall args ro, strip (fst (strip args ro)) (snd (strip args ro)) = strip args ro.
@@ -50,6 +64,48 @@ Theorem C09_spec_dd :
   forall args ro, m_dd args ro = Some (args, true, []).
 Proof. reflexivity. Qed.
 
+(** insertion of the first "--" in the trailing block of positionals: reading level *)
+Theorem C09_insertion_same_result :
+  forall D, oi_lookup D s_dd = None -> oi_lookup D [c_dash; c_eq] = None ->
+  (forall o, oi_fromenv D o = false) ->
+  forall g start a1 a2 p q,
+    wf_graph g -> (forall s t, ~ In (LDD, t) (edges g s)) -> start < nstates g ->
+    no_dd p -> Reads D a1 (p ++ map VP q) -> Reads D a2 (p ++ VDD :: map VP q) ->
+    fsm_apply D g start a1 = fsm_apply D g start a2.
+Proof. exact insertion_same_result. Qed.
+
+(** token level: after any readable prefix without "--", between any two blocks of positionals *)
+Theorem C09_insertion_changes_nothing :
+  forall D, oi_lookup D s_dd = None -> oi_lookup D [c_dash; c_eq] = None ->
+  (forall o, oi_fromenv D o = false) ->
+  forall g start pre p q1 q2,
+    wf_graph g -> (forall s t, ~ In (LDD, t) (edges g s)) -> start < nstates g ->
+    Prefix D pre p -> no_dd p -> allpos q1 -> allpos q2 ->
+    fsm_apply D g start (pre ++ q1 ++ q2) = fsm_apply D g start (pre ++ q1 ++ s_dd :: q2).
+Proof. exact insert_dd_same_result. Qed.
+
+(** command level, decidable hypotheses *)
+Theorem C09_inserted_dd_same_parse :
+  forall parse_float opts args spec i a1 a2 p q,
+    compile opts args spec = IOk i ->
+    sane (optinfo_of opts) = true -> no_dd_graph (i_graph i) = true -> no_env opts = true ->
+    no_dd_b p = true ->
+    view (optinfo_of opts) a1 = Some (p ++ map VP q) ->
+    view (optinfo_of opts) a2 = Some (p ++ VDD :: map VP q) ->
+    fsm_parse parse_float i a1 = fsm_parse parse_float i a2.
+Proof. exact inserted_dd_same_parse. Qed.
+
+(** without environment-backed options, positionals look the same to the option group whether
+    options are open or ended: it fails *)
+Theorem C09_group_cannot_tell_open_from_ended :
+  forall D, (forall o, oi_fromenv D o = false) ->
+  forall js q r, allpos q -> m_group D js q r = None.
+Proof. exact m_group_allpos. Qed.
+
+Print Assumptions C09_insertion_same_result.
+Print Assumptions C09_insertion_changes_nothing.
+Print Assumptions C09_inserted_dd_same_parse.
+Print Assumptions C09_group_cannot_tell_open_from_ended.
 Print Assumptions C09_dropped_once.
 Print Assumptions C09_further_dd_is_data.
 Print Assumptions C09_trailing_dd_accepted.
@@ -57,3 +113,44 @@ Print Assumptions C09_verbatim.
 Print Assumptions C09_no_option_after_dd.
 Print Assumptions C09_options_are_not_positionals.
 Print Assumptions C09_spec_dd.
+
+(** non-vacuity: "--" inserted before, inside and after the trailing block; and the Q2 witness, which
+    the hypothesis [no_env] excludes *)
+Definition c09_decls (env : str) : list decl :=
+  [mkDecl true KStrings (lit "e") [] env false (VStrs []) false;
+   mkDecl true KBool (lit "f") [] [] false (VBool false) false;
+   mkDecl false KStrings (lit "X") [] [] false (VStrs []) false].
+
+Example C09_nonvacuous :
+  match declare (fun _ => None) (fun _ => []) (c09_decls []) [] [] with
+  | inl (opts, args) =>
+    match compile opts args (lit "[-ef] X...") with
+    | IOk i =>
+      let D := optinfo_of opts in
+      let lines := [[lit "-f"; lit "x"; lit "y"]; [lit "-f"; lit "--"; lit "x"; lit "y"]; [lit "-f"; lit "x"; lit "--"; lit "y"];
+                    [lit "-f"; lit "x"; lit "y"; lit "--"]] in
+      sane D && no_dd_graph (i_graph i) && no_env opts &&
+      match map (view D) lines with
+      | [Some [VO 1 _; VP _; VP _]; Some [VO 1 _; VDD; VP _; VP _]; Some [VO 1 _; VP _; VDD; VP _]; Some [VO 1 _; VP _; VP _; VDD]] => true
+      | _ => false
+      end &&
+      forallb (fun a => match fsm_parse (fun _ => None) i a with PAccept _ _ => true | _ => false end) lines
+    | _ => false
+    end
+  | inr _ => false
+  end = true.
+Proof. vm_compute. reflexivity. Qed.
+
+Example C09_q2_outside_the_quantifier :
+  match declare (fun _ => None) (fun n => if str_eqb n (lit "VE_E") then lit "v" else []) (c09_decls (lit "VE_E")) [] [] with
+  | inl (opts, args) =>
+    match compile opts args (lit "-ef X") with
+    | IOk i =>
+      (no_env opts,
+       match fsm_parse (fun _ => None) i [lit "x"] with PAccept _ _ => true | _ => false end,
+       match fsm_parse (fun _ => None) i [lit "--"; lit "x"] with PAccept _ _ => true | _ => false end)
+    | _ => (true, false, false)
+    end
+  | inr _ => (true, false, false)
+  end = (false, true, false).
+Proof. vm_compute. reflexivity. Qed.
